@@ -788,7 +788,9 @@ func (t *Transport) gsIncomingResponseHook(p peer.ID, response graphsync.Respons
 		}
 	}
 
-	if err != nil {
+	// ErrPause means the local side is still paused: the request stays paused,
+	// it must not be terminated (same as in gsRequestUpdatedHook)
+	if err != nil && err != datatransfer.ErrPause {
 		hookActions.TerminateWithError(err)
 	}
 
@@ -797,7 +799,7 @@ func (t *Transport) gsIncomingResponseHook(p peer.ID, response graphsync.Respons
 	// specific extension name
 	_, err = t.processExtension(chid, response, p, []graphsync.ExtensionName{extension.ExtensionOutgoingBlock1_1})
 
-	if err != nil {
+	if err != nil && err != datatransfer.ErrPause {
 		hookActions.TerminateWithError(err)
 	}
 }
